@@ -8,5 +8,6 @@ import (
 func main() {
 	kit.Main(map[string]*kit.Spec{
 		"C04": chansim.C04(),
+		"C05": chansim.C05(),
 	})
 }
